@@ -142,7 +142,7 @@ func gen(repo string) (map[string]string, error) {
 		consts[c] = v
 	}
 	// field name -> Lean parameter of the generated function
-	fieldParam := map[string]string{"PoolName": "poolName", "AppTypePrefix": "appTypePrefix", "Namespace": "namespace",
+	fieldParam := map[string]string{"PoolName": "poolName", "AppTypePrefix": "appTypePrefix", "Namespace": "ns",
 		"AppName": "appName", "PodName": "podName"}
 	pp, err := ut.Fn("KeyObj", "PoolPrefix")
 	if err != nil {
@@ -187,7 +187,7 @@ func gen(repo string) (map[string]string, error) {
 		return nil, fmt.Errorf("%s: PoolPrefix: %v", utilsGo, err)
 	}
 	b.WriteString("/-- `KeyObj.PoolPrefix()` as a function of the key object's fields (translated from its two fmt.Sprintf calls) -/\n")
-	fmt.Fprintf(&b, "def poolPrefixFn (poolName appTypePrefix namespace appName : String) : String :=\n  if poolName ≠ \"\" then %s else %s\n\n", e1, e2)
+	fmt.Fprintf(&b, "def poolPrefixFn (poolName appTypePrefix ns appName : String) : String :=\n  if poolName ≠ \"\" then %s else %s\n\n", e1, e2)
 
 	// NewKeyObj: parameter -> field mapping
 	nk, err := ut.Fn("", "NewKeyObj")
@@ -263,12 +263,12 @@ func gen(repo string) (map[string]string, error) {
 	switch filterKeyExpr {
 	case "keyObj.PoolPrefix()":
 		b.WriteString("/-- the string getSubnet locks: `keyObj.PoolPrefix()` of the pod's key object -/\n")
-		b.WriteString("def filterLockKey (poolName appTypePrefix namespace appName : String) : String :=\n  poolPrefixFn poolName appTypePrefix namespace appName\n")
+		b.WriteString("def filterLockKey (poolName appTypePrefix ns appName : String) : String :=\n  poolPrefixFn poolName appTypePrefix ns appName\n")
 	case "keyObj.PoolName":
-		b.WriteString("def filterLockKey (poolName _appTypePrefix _namespace _appName : String) : String := poolName\n")
+		b.WriteString("def filterLockKey (poolName _appTypePrefix _ns _appName : String) : String := poolName\n")
 	case "keyObj.KeyInDB", "":
 		// no lock / a per-pod string: every pod locks something else
-		b.WriteString("def filterLockKey (poolName appTypePrefix namespace appName : String) : String :=\n  \"<no-common-lock>\" ++ poolName ++ appTypePrefix ++ namespace ++ appName\n")
+		b.WriteString("def filterLockKey (poolName appTypePrefix ns appName : String) : String :=\n  \"<no-common-lock>\" ++ poolName ++ appTypePrefix ++ ns ++ appName\n")
 	default:
 		return nil, fmt.Errorf("filter.go: getSubnet locks %q - an expression this translator cannot turn into a function", filterKeyExpr)
 	}
